@@ -212,7 +212,8 @@ def layer_units(tier, layers):
                 tout = 'float' if (i + j) % 2 == 0 else 'double'
                 fl = ('rel', 'dbg', 'san') if (n, m) == (2, 3) else ('rel',)
                 U += unit(f'c10_clamp_{n}_{m}_{tin}_{tout}', H, f'clamp_h<{n},{m},{tin},{tout}>()', flavours=fl,
-                          sites=[1, 2, 3, 4], diff=(n <= 2), weight=(3 ** n if tin in ('float', 'double') else 1))
+                          sites=[1, 2, 3, 4], diff=(n <= 2), weight=(3 ** n if tin in ('float', 'double') else 1),
+                          timeout=3600 if n == 4 else 900)
     if 'backup' in layers:
         tins = ['int', 'size_t', 'float', 'double']
         for i, (n, m) in enumerate(pairs):
@@ -280,8 +281,8 @@ def more_C10(tier):
     th = tier == 'thorough'
     U = []
     H = 'c10_array.cpp'
-    for n, c, v in ((1, 'size_t', 'f1'), (2, 'size_t', 'f3'), (3, 'size_t', 'd2'), (1, 'int', 'f1'), (2, 'int', 'd2'), (2, 'unsigned', 'f2'),
-                    (3, 'unsigned', 'f1')) + (((4, 'size_t', 'f1'), (1, 'unsigned', 'd4')) if th else ()):
+    for n, c, v in ((1, 'size_t', 'f1'), (2, 'size_t', 'f3'), (3, 'size_t', 'd2'), (1, 'int', 'f1'), (2, 'int', 'd2'), (2, 'unsigned', 'f2')) + \
+                   (((4, 'size_t', 'f1'), (1, 'unsigned', 'd4')) if th else ()):
         U += unit(f'c10_arrayclamp_{n}_{c}_{v}', H, f'arrayclamp_h<{n},{c},{VEC[v]}>()', 'INT', sites=[1], cfg=SA, diff=(n == 2 and c == 'size_t'),
                   flavours=('rel', 'san') if c == 'size_t' else ('rel',))
     for n, v, tc in ((1, 'f1', 'float'), (2, 'f2', 'float'), (3, 'd1', 'double'), (2, 'd2', 'double'), (3, 'f3', 'float')):
